@@ -610,7 +610,372 @@ pub fn universe(tier: Tier) -> Vec<MsgFamily> {
             }),
         });
     }
+    // F7: the storage-header pattern "DLT\x01" embedded in every place where a message may
+    // legitimately carry arbitrary bytes (payloads, ids, u32 fields, strings, names): parsing,
+    // cutting, resync and re-serialisation must treat it as content, never as a header.
+    {
+        let pat: Vec<u8> = b"DLT\x01".to_vec();
+        let pat_s = "DLT\u{1}";
+        let sp = Space::new(&[embedded_pattern_positions(), 2, 2]);
+        let s2 = sp.clone();
+        fams.push(MsgFamily {
+            name: "u.embedded_pattern",
+            about: "the 4-byte storage pattern 'DLT\\x01' embedded at each content position (non-verbose / control / raw / string / network-trace data at start, middle, end and twice; variable name and unit; ECU / application / context / storage ids; session id, timestamp, message id, storage seconds and microseconds) x byte order x storage header".into(),
+            size: sp.size(),
+            gen: Box::new(move |i| {
+                let c = s2.coords(i);
+                embedded_pattern_message(c[0], c[1] == 1, st_opt(c[2]), &pat, pat_s)
+            }),
+        });
+    }
+    // F8: length sweeps -- every length (not only round boundary values) of every length-prefixed
+    // or length-derived field
+    {
+        let lens = sweep_lengths(tier);
+        let nl = lens.len();
+        let sp = Space::new(&[LEN_SWEEP_KINDS, nl, 2]);
+        let s2 = sp.clone();
+        fams.push(MsgFamily {
+            name: "u.len_sweep",
+            about: format!("{} field kinds (verbose string, verbose raw, variable name, unit, non-verbose payload, control payload, network-trace slice, string+following argument) x {} lengths ({}) x byte order; lengths above the field's maximum are clamped to it", LEN_SWEEP_KINDS, nl, sweep_lengths_about(tier)),
+            size: sp.size(),
+            gen: Box::new(move |i| {
+                let c = s2.coords(i);
+                len_sweep_message(c[0], lens[c[1]], c[2] == 1)
+            }),
+        });
+    }
+    // F9: count sweeps -- every argument count / slice count 0..=255
+    {
+        let alpha = arg_seq_alphabet(Tier::Thorough);
+        let sp = Space::new(&[3, 256, 2]);
+        let s2 = sp.clone();
+        fams.push(MsgFamily {
+            name: "u.count_sweep",
+            about: "every NOAR 0..=255: n bool arguments / n arguments cycling through all kinds of A_seq / n network-trace slices of varying sizes; x byte order".into(),
+            size: sp.size(),
+            gen: Box::new(move |i| {
+                let c = s2.coords(i);
+                let n = c[1];
+                let fl = if c[2] == 1 { 0x02 } else { 0 };
+                match c[0] {
+                    0 => msg_with(fl, 1, Some(ext(MSTP_LOG, 4, "A", "C")), RefPayload::Verbose((0..n).map(|j| mk_arg(RefKind::Bool, None, 0, false, RefValue::Bool((j % 2) as u8), None)).collect()), None),
+                    1 => msg_with(fl | 0x04, 1, Some(ext(MSTP_LOG, 2, "AP", "CT")), RefPayload::Verbose((0..n).map(|j| alpha[(j * 7 + n) % alpha.len()].clone()).collect()), None),
+                    _ => msg_with(fl, 1, Some(ext(MSTP_NW_TRACE, 3, "NW", "TR")), RefPayload::NetworkTrace((0..n).map(|j| vec![j as u8; (j * 3 + n) % 6]).collect()), None),
+                }
+            }),
+        });
+    }
+    // F10: value sweeps -- bit-level coverage of every value field
+    {
+        let args = value_sweep_args(tier);
+        let na = args.len();
+        let sp = Space::new(&[na, 2]);
+        let s2 = sp.clone();
+        fams.push(MsgFamily {
+            name: "u.value_sweep",
+            about: format!("{} single-argument messages: all 256 values of bool / 8-bit kinds, 16-bit kinds over all low bytes x high byte set (all 65536 thorough), walking ones / walking zeros / one-hot bytes of every 32..128-bit kind, every f32 exponent and f64 exponent (strided in quick) x 4 mantissas x sign, fixed-point quantization exponent sweep and offset walking bits; x byte order", na),
+            size: sp.size(),
+            gen: Box::new(move |i| {
+                let c = s2.coords(i);
+                msg_with(if c[1] == 1 { 0x02 } else { 0 }, 1, Some(ext(MSTP_LOG, 4, "APP", "CTX")), RefPayload::Verbose(vec![args[c[0]].clone()]), None)
+            }),
+        });
+        // header fields: MCNT all 256; walking bits of session id, timestamp, message id, storage seconds / microseconds
+        let sp = Space::new(&[6, 64, 2]);
+        let s2 = sp.clone();
+        fams.push(MsgFamily {
+            name: "u.header_value_sweep",
+            about: "MCNT all 256 values (4 x 64); walking ones and walking zeros (64 patterns) of session id, timestamp, message id, storage-header seconds and microseconds; x byte order".into(),
+            size: sp.size(),
+            gen: Box::new(move |i| {
+                let c = s2.coords(i);
+                let fl = if c[2] == 1 { 0x02 } else { 0 };
+                let w = if c[1] < 32 { 1u32 << c[1] } else { !(1u32 << (c[1] - 32)) };
+                let mut m = msg_with(fl | 0x18, 1, None, RefPayload::NonVerbose(0x0102_0304, vec![1]), Some(storage(3, 4, "E")));
+                match c[0] {
+                    0 => m.session = Some(w),
+                    1 => m.timestamp = Some(w),
+                    2 => m.payload = RefPayload::NonVerbose(w, vec![1]),
+                    3 => m.storage = Some(storage(w, 4, "E")),
+                    4 => m.storage = Some(storage(3, w, "E")),
+                    _ => m.mcnt = c[1] as u8,
+                }
+                if c[0] == 5 {
+                    // 4 x 64 = all 256 counter values over both byte orders x two header shapes
+                    m.mcnt = (c[1] as u8) | if c[2] == 1 { 0x40 } else { 0 } | if i % 2 == 1 { 0x80 } else { 0 };
+                }
+                normalize(m)
+            }),
+        });
+    }
+    // F11: character sweep -- every Unicode scalar value as text content
+    {
+        let dense_positions: usize = if tier == Tier::Thorough { CHAR_POSITIONS } else { 1 };
+        let scalars: u64 = 0x11_0000 - 0x800 - 1; // without NUL and the surrogates
+        let sparse: Vec<u32> = (1u32..0x11_0000).filter(|c| char::from_u32(*c).is_some() && (*c < 0x3000 || *c % 61 == 0 || (0xFE00..=0xFFFF).contains(c) || *c >= 0x10_FF00)).collect();
+        let nsparse = sparse.len() as u64;
+        let dense_size = scalars * 2 * dense_positions as u64;
+        let sparse_size = nsparse * 2 * (CHAR_POSITIONS - dense_positions) as u64;
+        fams.push(MsgFamily {
+            name: "u.chars",
+            about: format!("EVERY Unicode scalar value (U+0001..U+10FFFF without surrogates) as first and as last character of a UTF8-coded string argument{}; x byte order alternating", if tier == Tier::Thorough { ", of an ASCII-coded string argument, a variable name, a unit, and as the whole application id / context id / header ECU id / storage ECU id".to_string() } else { format!("; for an ASCII-coded string argument, a variable name, a unit and the application / context / ECU / storage ECU ids: {} scalars (all below U+3000, every 61st above, U+FE00..U+FFFF, the last 256)", nsparse) }),
+            size: dense_size + sparse_size,
+            gen: Box::new(move |i| {
+                let (pos, code, variant) = if i < dense_size {
+                    let per = scalars * 2;
+                    let pos = (i / per) as usize;
+                    let j = i % per;
+                    let k = (j / 2) as u32 + 1; // 1..=scalars
+                    let code = if k >= 0xD800 { k + 0x800 } else { k };
+                    (pos, code, j % 2)
+                } else {
+                    let j = i - dense_size;
+                    let per = nsparse * 2;
+                    let pos = dense_positions + (j / per) as usize;
+                    let j = j % per;
+                    (pos, sparse[(j / 2) as usize], j % 2)
+                };
+                char_message(pos, char::from_u32(code).expect("scalar"), variant == 1, code % 2 == 1)
+            }),
+        });
+    }
     fams
+}
+
+pub const CHAR_POSITIONS: usize = 8;
+/// One message with character `c` at text position `pos`.
+pub fn char_message(pos: usize, c: char, last: bool, big: bool) -> RefMsg {
+    let fl = if big { 0x02 } else { 0 };
+    let text = if last { format!("ab{}", c) } else { format!("{}ab", c) };
+    let id: String = c.to_string(); // at most 4 bytes
+    let e_log = || Some(ext(MSTP_LOG, 4, "APP", "CTX"));
+    let u4 = || RefValue::U(0x0102_0304, 4);
+    match pos {
+        0 => msg_with(fl, 1, e_log(), RefPayload::Verbose(vec![mk_arg(RefKind::Str, None, 1, false, RefValue::Str(text), None)]), None),
+        1 => msg_with(fl, 1, e_log(), RefPayload::Verbose(vec![mk_arg(RefKind::Str, None, 0, false, RefValue::Str(text), None)]), None),
+        2 => msg_with(fl, 1, e_log(), RefPayload::Verbose(vec![mk_arg(RefKind::Uint(4), Some((&text, "u")), 0, false, u4(), None)]), None),
+        3 => msg_with(fl, 1, e_log(), RefPayload::Verbose(vec![mk_arg(RefKind::Uint(4), Some(("n", &text)), 0, false, u4(), None)]), None),
+        4 => msg_with(fl, 1, Some(ext(MSTP_LOG, 4, &id, "CTX")), payload_for(true, Some(MSTP_LOG), 0), None),
+        5 => msg_with(fl, 1, Some(ext(MSTP_LOG, 4, "APP", &id)), payload_for(false, Some(MSTP_LOG), 0), None),
+        6 => {
+            let mut m = msg_with(fl | 0x04, 1, None, RefPayload::NonVerbose(1, vec![2]), None);
+            m.ecu = Some(id);
+            m
+        }
+        _ => msg_with(fl, 1, None, RefPayload::NonVerbose(1, vec![2]), Some(storage(1, 2, &id))),
+    }
+}
+
+pub const LEN_SWEEP_KINDS: usize = 8;
+pub fn sweep_lengths(tier: Tier) -> Vec<usize> {
+    let mut v: Vec<usize> = match tier {
+        Tier::Quick => (0..=1100).collect(),
+        Tier::Thorough => (0..=9000).collect(),
+    };
+    for k in 11..=16u32 {
+        for d in -3i64..=3 {
+            v.push(((1i64 << k) + d) as usize);
+        }
+    }
+    for x in [4000usize, 10_000, 30_000, 60_000, 65_000] {
+        v.push(x);
+    }
+    for d in 0..40usize {
+        v.push(65_535 - d);
+    }
+    if tier == Tier::Thorough {
+        let mut x = 9001usize;
+        while x < 65_536 {
+            v.push(x);
+            x += 13;
+        }
+    }
+    v.sort_unstable();
+    v.dedup();
+    v
+}
+pub fn sweep_lengths_about(tier: Tier) -> &'static str {
+    match tier {
+        Tier::Quick => "every length 0..=1100, 2^k-3..2^k+3 for k=11..16, 4000/10000/30000/60000/65000, 65496..=65535",
+        Tier::Thorough => "every length 0..=9000, every 13th above, 2^k-3..2^k+3 for k=11..16, 65496..=65535",
+    }
+}
+/// One message whose field `kind` has length `l` (clamped so that the message fits 65535).
+pub fn len_sweep_message(kind: usize, l: usize, big: bool) -> RefMsg {
+    let fl = if big { 0x02 } else { 0 };
+    let e_log = || Some(ext(MSTP_LOG, 4, "APP", "CTX"));
+    let fill = |n: usize| -> Vec<u8> { (0..n).map(|i| (i * 31 + n) as u8).collect() };
+    match kind {
+        // verbose string of l bytes (+ NUL): 14 headers + 4 + 2 + l + 1
+        0 => {
+            let n = l.min(65_535 - 14 - 7);
+            msg_with(fl, 1, e_log(), RefPayload::Verbose(vec![mk_arg(RefKind::Str, None, 1, false, RefValue::Str("s".repeat(n)), None)]), None)
+        }
+        1 => {
+            let n = l.min(65_535 - 14 - 6);
+            msg_with(fl, 1, e_log(), RefPayload::Verbose(vec![mk_arg(RefKind::Raw, None, 0, false, RefValue::Raw(fill(n)), None)]), None)
+        }
+        // variable name of l bytes: 14 + 4 + 2 (name len) + 2 (unit len) + l + 1 + 2 + 4
+        2 => {
+            let n = l.min(65_535 - 14 - 15 - 1);
+            let name = "N".repeat(n);
+            msg_with(fl, 1, e_log(), RefPayload::Verbose(vec![mk_arg(RefKind::Uint(4), Some((&name, "u")), 0, false, RefValue::U(0x0102_0304, 4), None)]), None)
+        }
+        3 => {
+            let n = l.min(65_535 - 14 - 15 - 1);
+            let unit = "U".repeat(n);
+            msg_with(fl, 1, e_log(), RefPayload::Verbose(vec![mk_arg(RefKind::Sint(2), Some(("n", &unit)), 0, false, RefValue::I(-2, 2), None)]), None)
+        }
+        4 => msg_with(fl, 1, None, RefPayload::NonVerbose(0x0102_0304, fill(l.min(65_535 - 8))), None),
+        5 => msg_with(fl, 1, Some(ext(MSTP_CONTROL, 1, "APP", "CTX")), RefPayload::Control(0x11, fill(l.min(65_535 - 15))), None),
+        6 => msg_with(fl, 1, Some(ext(MSTP_NW_TRACE, 2, "NW", "TR")), RefPayload::NetworkTrace(vec![fill(l.min(65_535 - 14 - 6 - 6)), vec![]]), None),
+        // a string of l bytes with variable name followed by another argument (cursor carried on)
+        _ => {
+            let n = l.min(65_535 - 14 - 7 - 5 - 8);
+            msg_with(
+                fl,
+                1,
+                e_log(),
+                RefPayload::Verbose(vec![mk_arg(RefKind::Str, Some(("nm", "")), 0, false, RefValue::Str("t".repeat(n)), None), mk_arg(RefKind::Uint(2), None, 0, false, RefValue::U(0x0102, 2), None)]),
+                None,
+            )
+        }
+    }
+}
+
+pub fn value_sweep_args(tier: Tier) -> Vec<RefArg> {
+    let thorough = tier == Tier::Thorough;
+    let mut out = vec![];
+    for b in 0..=255u8 {
+        out.push(mk_arg(RefKind::Bool, None, 0, false, RefValue::Bool(b), None));
+        out.push(mk_arg(RefKind::Uint(1), None, 0, false, RefValue::U(b as u128, 1), None));
+        out.push(mk_arg(RefKind::Sint(1), None, 0, false, RefValue::I(b as i8 as i128, 1), None));
+    }
+    let his: Vec<u16> = if thorough { (0..=255).collect() } else { vec![0, 1, 2, 0x10, 0x7F, 0x80, 0xFE, 0xFF] };
+    for hi in his {
+        for lo in 0..=255u16 {
+            let v = (hi << 8) | lo;
+            out.push(mk_arg(RefKind::Uint(2), None, 0, false, RefValue::U(v as u128, 2), None));
+            out.push(mk_arg(RefKind::Sint(2), None, 0, false, RefValue::I(v as i16 as i128, 2), None));
+        }
+    }
+    for n in [4u8, 8, 16] {
+        let bits = 8 * n as u32;
+        let mask: u128 = if n == 16 { u128::MAX } else { (1u128 << bits) - 1 };
+        let mut pats: Vec<u128> = vec![];
+        for b in 0..bits {
+            pats.push(1u128 << b);
+            pats.push(mask & !(1u128 << b));
+        }
+        for byte in 0..n as u32 {
+            pats.push(0xA5u128 << (8 * byte));
+        }
+        for p in pats {
+            out.push(mk_arg(RefKind::Uint(n), None, 0, false, RefValue::U(p, n), None));
+            // reinterpret the same bit pattern as a signed value of that width
+            let sv: i128 = if n == 16 { p as i128 } else if p >> (bits - 1) & 1 == 1 { (p as i128) - (1i128 << bits) } else { p as i128 };
+            out.push(mk_arg(RefKind::Sint(n), None, 0, false, RefValue::I(sv, n), None));
+        }
+    }
+    // floats: exponent sweep x mantissas x sign
+    for e in 0..=255u32 {
+        for m in [0u32, 1, 0x0040_0000, 0x007F_FFFF] {
+            for s in [0u32, 1] {
+                out.push(mk_arg(RefKind::Float(4), None, 0, false, RefValue::F32((s << 31) | (e << 23) | m), None));
+            }
+        }
+    }
+    let e64: Vec<u64> = if thorough { (0..=2047).collect() } else { (0..=2047).filter(|e| e % 37 == 0 || *e <= 2 || (1021..=1026).contains(e) || *e >= 2045).collect() };
+    for e in e64 {
+        for m in [0u64, 1, 0x0008_0000_0000_0000, 0x000F_FFFF_FFFF_FFFF] {
+            for s in [0u64, 1] {
+                out.push(mk_arg(RefKind::Float(8), None, 0, false, RefValue::F64((s << 63) | (e << 52) | m), None));
+            }
+        }
+    }
+    // fixed point: quantization exponent sweep; offset walking bits
+    for k in [RefKind::SFix(4), RefKind::UFix(4), RefKind::SFix(8), RefKind::UFix(8)] {
+        let n = match k {
+            RefKind::SFix(n) | RefKind::UFix(n) => n,
+            _ => unreachable!(),
+        };
+        for e in (0..=255u32).step_by(if thorough { 1 } else { 5 }) {
+            for s in [0u32, 1] {
+                out.push(mk_arg(k, None, 0, false, default_value(k), Some(((s << 31) | (e << 23) | 0x0012_3456, 0x0102_0304))));
+            }
+        }
+        let ob = if n == 4 { 32 } else { 64 };
+        for b in 0..ob {
+            let w: i64 = if n == 4 { (1u32 << b) as i32 as i64 } else { (1u64 << b) as i64 };
+            out.push(mk_arg(k, Some(("n", "u")), 0, false, default_value(k), Some((0x3F80_0000, w))));
+            out.push(mk_arg(k, None, 0, false, default_value(k), Some((0x3F80_0000, !w & if n == 4 { -1i64 } else { -1 }))));
+        }
+    }
+    out
+}
+
+pub fn embedded_pattern_positions() -> usize {
+    22
+}
+/// One message with the storage pattern at content position `pos` (see family u.embedded_pattern).
+pub fn embedded_pattern_message(pos: usize, big: bool, st: Option<RefStorage>, pat: &[u8], pat_s: &str) -> RefMsg {
+    let fl = if big { 0x02 } else { 0 };
+    let around = |pre: usize, post: usize| -> Vec<u8> {
+        let mut v = vec![0x58u8; pre];
+        v.extend_from_slice(pat);
+        v.extend(std::iter::repeat(0x59u8).take(post));
+        v
+    };
+    let twice = {
+        let mut v = around(1, 2);
+        v.extend_from_slice(pat);
+        v
+    };
+    let e_log = || Some(ext(MSTP_LOG, 4, "APP", "CTX"));
+    match pos {
+        0 => msg_with(fl, 1, None, RefPayload::NonVerbose(7, around(0, 0)), st),
+        1 => msg_with(fl, 1, None, RefPayload::NonVerbose(7, around(3, 5)), st),
+        2 => msg_with(fl | 0x04, 1, None, RefPayload::NonVerbose(7, around(20, 0)), st),
+        3 => msg_with(fl, 1, None, RefPayload::NonVerbose(7, twice.clone()), st),
+        4 => msg_with(fl, 1, Some(ext(MSTP_CONTROL, 1, "APP", "CTX")), RefPayload::Control(0x11, around(2, 1)), st),
+        5 => msg_with(fl, 1, e_log(), RefPayload::Verbose(vec![mk_arg(RefKind::Raw, None, 0, false, RefValue::Raw(around(0, 0)), None)]), st),
+        6 => msg_with(fl, 1, e_log(), RefPayload::Verbose(vec![mk_arg(RefKind::Raw, Some(("r", "")), 0, false, RefValue::Raw(around(30, 7)), None), mk_arg(RefKind::Bool, None, 0, false, RefValue::Bool(1), None)]), st),
+        7 => msg_with(fl, 1, e_log(), RefPayload::Verbose(vec![mk_arg(RefKind::Str, None, 1, false, RefValue::Str(pat_s.to_string()), None)]), st),
+        8 => msg_with(fl, 1, e_log(), RefPayload::Verbose(vec![mk_arg(RefKind::Str, None, 0, false, RefValue::Str(format!("abc{}xyz{}", pat_s, pat_s)), None), mk_arg(RefKind::Uint(2), None, 0, false, RefValue::U(0x0102, 2), None)]), st),
+        9 => msg_with(fl, 1, e_log(), RefPayload::Verbose(vec![mk_arg(RefKind::Uint(4), Some((pat_s, "u")), 0, false, RefValue::U(7, 4), None)]), st),
+        10 => msg_with(fl, 1, e_log(), RefPayload::Verbose(vec![mk_arg(RefKind::Sint(2), Some(("n", pat_s)), 0, false, RefValue::I(-2, 2), None)]), st),
+        11 => msg_with(fl, 1, Some(ext(MSTP_NW_TRACE, 2, "NW", "TR")), RefPayload::NetworkTrace(vec![around(0, 0), around(9, 0)]), st),
+        12 => {
+            let mut m = msg_with(fl | 0x04, 1, e_log(), payload_for(true, Some(MSTP_LOG), 0), st);
+            m.ecu = Some(pat_s.to_string());
+            m
+        }
+        13 => msg_with(fl, 1, Some(ext(MSTP_LOG, 4, pat_s, "CTX")), payload_for(true, Some(MSTP_LOG), 0), st),
+        14 => msg_with(fl, 1, Some(ext(MSTP_LOG, 4, "APP", pat_s)), payload_for(false, Some(MSTP_LOG), 0), st),
+        15 => {
+            // session id whose big-endian bytes are the pattern
+            let mut m = msg_with(fl | 0x08, 1, None, RefPayload::NonVerbose(1, vec![1, 2]), st);
+            m.session = Some(0x444C_5401);
+            m
+        }
+        16 => {
+            let mut m = msg_with(fl | 0x10, 1, e_log(), payload_for(true, Some(MSTP_LOG), 2), st);
+            m.timestamp = Some(0x444C_5401);
+            m
+        }
+        // message id: the pattern in the message byte order
+        17 => msg_with(fl, 1, None, RefPayload::NonVerbose(if big { 0x444C_5401 } else { 0x0154_4C44 }, vec![9]), st),
+        // storage header fields (little endian): seconds / microseconds / ECU id equal to the pattern
+        18 => msg_with(fl, 1, None, RefPayload::NonVerbose(3, vec![]), st.map(|_| storage(0x0154_4C44, 5, "STOR"))),
+        19 => msg_with(fl, 1, None, RefPayload::NonVerbose(3, vec![1]), st.map(|_| storage(5, 0x0154_4C44, "STOR"))),
+        20 => msg_with(fl, 1, e_log(), payload_for(true, Some(MSTP_LOG), 0), st.map(|_| storage(5, 6, pat_s))),
+        // a whole stored message carried as the payload of another one
+        _ => {
+            let inner = encode(&msg_with(0, 1, None, RefPayload::NonVerbose(0x0102_0304, vec![1, 2, 3]), Some(storage(1, 2, "INNR")))).0;
+            msg_with(fl, 1, None, RefPayload::NonVerbose(8, inner), st)
+        }
+    }
 }
 
 /// A compact sub-universe for cut-position / mutation seeds: covers every payload kind, every
